@@ -430,14 +430,11 @@ def run_check(pid, tier, only=None):
                 violations.append(fl)
                 continue
             st, sig, text = stage_replayer(r._stage)(pid, r._stage, path, 3 if fl.get("crash") else 1)
-            if st == "pass" and not r._stage.get("nondeterministic"):
-                # not reproducible from the saved case: state leaked between cases or timing; report, do not alarm
-                unconfirmed.append("%s (did not reproduce from %s)" % (fl["sig"], path))
-                if fl.get("crash"):
-                    # a crash that does not replay is still a crash of the real code: keep it
-                    fl["path"] = path
-                    violations.append(fl)
-                continue
+            if st == "pass":
+                # The oracle failed on the real code inside the shard but the saved case alone does not reproduce it
+                # (state carried over from earlier cases, or timing). It is still a failure of the code under test:
+                # report it, and say so.
+                unconfirmed.append("%s (observed in the shard, did not reproduce from %s alone)" % (fl["sig"], path))
             fl["path"] = path
             violations.append(fl)
 
